@@ -173,6 +173,7 @@ func selectPaceConfig(cardAccess *document.CardAccess) (*PaceConfig, *DomainPara
 
 	var selectedPaceInfo *document.PaceInfo
 	var selectedConfig *PaceConfig
+	var skippedErr error // why a known protocol was skipped (reported if nothing else is usable)
 
 	for i := range cardAccess.SecurityInfos.PaceInfos {
 		paceInfo := &cardAccess.SecurityInfos.PaceInfos[i]
@@ -184,6 +185,19 @@ func selectPaceConfig(cardAccess *document.CardAccess) (*PaceConfig, *DomainPara
 			continue
 		}
 
+		// skip entries whose domain parameters we cannot use (missing, RFU or unsupported parameter-id),
+		// so that they cannot shadow a supported entry
+		if paceInfo.ParameterId == nil {
+			slog.Warn("selectPaceConfig: skipping PACE info without ParameterId", "protocol", paceInfo.Protocol)
+			skippedErr = fmt.Errorf("[selectPaceConfig] missing ParameterId in selected PACE info")
+			continue
+		}
+		if _, err := standardisedDomainParams(int(paceInfo.ParameterId.Int64())); err != nil {
+			slog.Warn("selectPaceConfig: skipping PACE info with unsupported ParameterId", "protocol", paceInfo.Protocol, "error", err)
+			skippedErr = fmt.Errorf("[selectPaceConfig] standardisedDomainParams error: %w", err)
+			continue
+		}
+
 		if selectedConfig == nil || config.weighting > selectedConfig.weighting {
 			selectedPaceInfo = paceInfo
 			selectedConfig = config
@@ -191,6 +205,9 @@ func selectPaceConfig(cardAccess *document.CardAccess) (*PaceConfig, *DomainPara
 	}
 
 	if selectedPaceInfo == nil || selectedConfig == nil {
+		if skippedErr != nil {
+			return nil, nil, skippedErr
+		}
 		return nil, nil, fmt.Errorf("[selectPaceConfig] no supported PACE info found")
 	}
 
